@@ -24,8 +24,12 @@ def dictionary(value, dictionary_class):
 
 
 _NUMBER_FIELD = r"(?:\d+\.?\d*|\.\d+)"
-# integer, decimal or sexagesimal with ':', ';' or blank separators
-_NUMBER_RE = re.compile(r"^[+-]?%s(?:[:; ]%s){0,2}$" % (_NUMBER_FIELD, _NUMBER_FIELD))
+# integer, decimal (optionally with an exponent, as printf's %e and %g render
+# large and small values) or sexagesimal with ':', ';' or blank separators
+_NUMBER_RE = re.compile(
+    r"^[+-]?(?:%s[eE][+-]?\d+|%s(?:[:; ]%s){0,2})$"
+    % (_NUMBER_FIELD, _NUMBER_FIELD, _NUMBER_FIELD)
+)
 
 
 def number(value):
